@@ -509,4 +509,7 @@ func main() {
 	for name, body := range translateGenesis(*repo, ints, scalarInts) {
 		w(name, body)
 	}
+	for name, body := range translateQueries(*repo, ints, scalarInts) {
+		w(name, body)
+	}
 }
